@@ -6,8 +6,11 @@ sys.path.insert(0, VERIF)
 import props_config as pc
 ids = [json.loads(l)["id"] for l in open(os.path.join(VERIF, "properties.jsonl"))]
 checks = []
+def built(pid):   # a property is claimed only when its check is part of the committed engine (work-in-progress fragments are ignored)
+    c = pc.PROPS.get(pid)
+    return c is not None and (os.path.exists(os.path.join(VERIF, "engine", c.get("props_dir", "props"), pid.lower() + ".cpp")) or c.get("custom_engine"))
 for pid in ids:
-    if pid not in pc.PROPS: continue
+    if not built(pid): continue
     c = pc.PROPS[pid]; m = pc.META[pid]
     checks.append({
         "property_id": pid,
@@ -21,15 +24,15 @@ for pid in ids:
         "technique": m["technique"],
     })
 na = [{"property_id": pid, "reason": pc.NOT_APPLICABLE.get(pid, "check not built yet in this revision of /verif (work in progress; see DESIGN.md section 3 for the planned generator and oracle)")}
-      for pid in ids if pid not in pc.PROPS]
+      for pid in ids if not built(pid)]
 doc = {
     "version": 1,
-    "setup_cmd": " && ".join(f"python3 build.py {f}" for f in sorted({fl for p in pc.PROPS.values() for fl in ([p["flavour"]] + p.get("extra_flavours", []))})),
+    "setup_cmd": " && ".join(f"python3 build.py {f}" for f in sorted({fl for k, p in pc.PROPS.items() if built(k) for fl in ([p["flavour"]] + p.get("extra_flavours", []))})),
     "hooks": {"guard": pc.GUARD, "enable": f"build.py compiles every translation unit of /repo and of the harness with -D{pc.GUARD}",
               "baseline_off_cmd": "cmake --build /repo/_build -j16 && ctest --test-dir /repo/_build -j8 --timeout 900",
               "source_commits": pc.HOOK_COMMITS, "add_only": True},
     "engines": [
-        {"name": "vdrive", "path": "engine/main_rc.cpp", "serves_properties": [p for p in ids if p in pc.PROPS and pc.PROPS[p].get("engine", "vdrive") == "vdrive"],
+        {"name": "vdrive", "path": "engine/main_rc.cpp", "serves_properties": [p for p in ids if built(p) and pc.PROPS[p].get("engine", "vdrive") == "vdrive"],
          "kind_free_text": "rapidcheck (generation + shrinking over byte strings decoded by a total structure-aware decoder) with ASan/UBSan; replay mode bypasses the library"},
     ] + pc.EXTRA_ENGINES,
     "checks": checks,
